@@ -185,6 +185,20 @@ def all_small_programs():
     return progs
 
 
+SOURCE_PROGRAMS = [
+    # the call that closes a recursion has arguments like any other call
+    ('def fn1(p):\n    if input():\n        fn1(p - v1)\nfn1(3)\n', 2, 1),
+    ('def fn1(p):\n    if input():\n        fn2(p)\ndef fn2(q):\n    fn1(q + v2)\nfn1(3)\n', 2, 1),
+    ('v1 = 2\ndef fn1(p):\n    if input():\n        fn1(p - v1)\n    print(v3)\nfn1(3)\n', 2, 1),
+    # a loop over a container that started empty and was filled by a method / an item assignment / on one branch only
+    ('v0 = []\nv0.extend([1, 2])\nfor v2 in v0:\n    print(v1)\n', 0, 1),
+    ('v0 = []\nv0.insert(0, 5)\nfor v2 in v0:\n    print(v1)\n', 0, 1),
+    ('v0 = {}\nv0["k"] = 1\nfor v2 in v0:\n    print(v1)\n', 0, 1),
+    ('if input():\n    v0 = []\nelse:\n    v0 = [1, 2]\nfor v2 in v0:\n    print(v1)\n', 1, 1),
+    ('v0 = []\nv0 += [1]\nfor v2 in v0:\n    v3 = v1\nprint(v3)\n', 0, 1),
+]
+
+
 def correspondence(ctx):
     rng = ctx.rng
     progs = []
@@ -227,6 +241,11 @@ def correspondence(ctx):
         code = '\n'.join(render(block, '', st)) + '\n'
         payload.append({'code': code, 'n_choices': st['choices'], 'truth': st['choices'] <= (6 if not st['loops'] else 4),
                         'max_iter': 2 if st['loops'] else 1})
+    # programs given as source (soundness only, like the extended subset): recursion with arguments, loops over containers that
+    # were filled after an empty start
+    for code, n_choices, max_iter in SOURCE_PROGRAMS:
+        progs.append(([], True))
+        payload.append({'code': code, 'n_choices': n_choices, 'truth': True, 'max_iter': max_iter})
     res = vlib.run_impl('c09_impl.py', {'programs': payload}, timeout=1800)
     items = []
     idx = []
@@ -251,6 +270,8 @@ def correspondence(ctx):
                                       % (sh.get('issues', sh.get('raised')), t['issues'])})
         # ---- the property on the real implementation, against real executions
         truth = r.get('truth')
+        if truth and 'error' in truth:
+            ctx.count('ground-truth-execution-failed')      # (visible in the evidence: such programs are judged by the model only)
         if truth and 'sites' in truth:
             reported = {(l, n): lab for l, n, lab in init}
             for key, flags in truth['sites'].items():
